@@ -376,3 +376,67 @@ def intersects_caps(D1, D2):
     n2, t2 = D2.cap()
     ang = 2.0 * fs_distance_sphere(n1, n2)
     return (ang < t1 + t2), abs(t1 + t2 - ang)
+
+
+# -- vectorised relations for large collections ---------------------------------------------------
+
+def relation_tables(c1, r1, b1, c2, r2, b2, pairwise, rel_margin=1e-3):
+    """(contains, intersects, in_general_position) for arrays of disks given by
+    (centre, radius, bounded-flag).  pairwise: all pairs (flattened (N, M)
+    tables); otherwise elementwise on equal shapes.  Same case analysis as
+    contains_truth / intersects_truth / relation_margin, on whole arrays."""
+    c1, c2 = np.asarray(c1, dtype=complex), np.asarray(c2, dtype=complex)
+    r1, r2 = np.asarray(r1, dtype=float), np.asarray(r2, dtype=float)
+    b1, b2 = np.asarray(b1, dtype=bool), np.asarray(b2, dtype=bool)
+    if pairwise:
+        c1, r1, b1 = (x.reshape(-1)[:, None] for x in (c1, r1, b1))
+        c2, r2, b2 = (x.reshape(-1)[None, :] for x in (c2, r2, b2))
+    d = np.hypot((c1 - c2).real, (c1 - c2).imag)
+    d, r1, r2, b1, b2 = np.broadcast_arrays(d, r1, r2, b1, b2)
+    contains = np.where(b1 & b2, d < r1 - r2,
+                        np.where(b1 & ~b2, False,
+                                 np.where(~b1 & b2, d > r1 + r2, d < r2 - r1)))
+    intersects = np.where(b1 & b2, d < r1 + r2,
+                          np.where(b1 & ~b2, ~(d < r2 - r1),
+                                   np.where(~b1 & b2, ~(d < r1 - r2), True)))
+    gap = np.minimum(np.abs(d - (r1 + r2)), np.abs(d - np.abs(r1 - r2)))
+    sc = np.maximum(np.maximum(1.0, d), np.maximum(r1, r2))
+    return contains, intersects, gap >= rel_margin * sc
+
+
+# -- Fubini-Study ball <-> affine circle, closed forms --------------------------------------------
+
+def fs_ball_affine_centre(w0, rho):
+    """affine centre of the boundary circle of the Fubini-Study ball of radius
+    rho about w0, and its conditioning margin.
+
+    On the unit sphere the ball is the cap {s : s . n > cos 2 rho}, n the
+    sphere point of w0; intersecting with the stereographic parametrisation
+    gives the circle  |w|^2 (cos 2rho - n_z) - 2 Re(conj(w) (n_x + i n_y)) +
+    (cos 2rho + n_z) = 0, i.e. centre (n_x + i n_y) / (cos 2rho - n_z)
+    = w0 / (1 - sin(rho)^2 (1 + |w0|^2)).  The denominator vanishes exactly
+    when the circle passes through infinity (arctan|w0| + rho = pi/2) and is
+    negative for balls that contain infinity (the centre then lies on the
+    opposite side of the origin).  margin = |arctan|w0| + rho - pi/2|."""
+    w0 = np.asarray(w0, dtype=complex)
+    rho = np.asarray(rho, dtype=float)
+    t2 = w0.real ** 2 + w0.imag ** 2
+    den = 1.0 - np.sin(rho) ** 2 * (1.0 + t2)
+    with np.errstate(divide="ignore", invalid="ignore"):
+        ctr = w0 / den
+    margin = np.abs(np.arctan(np.sqrt(t2)) + rho - np.pi / 2)
+    return ctr, margin
+
+
+def affine_disk_fs_centre_angle(c, r):
+    """Fubini-Study distance from 0 of the Fubini-Study centre of the bounded
+    disk |w - c| < r (an angle in [0, pi/2)): the centre is the sphere point n
+    of the cap, found from the Hermitian form [[|c|^2 - r^2, -conj c], [-c, 1]]
+    (see Disk.cap); its distance from the south pole s(0) is half the angle."""
+    c = np.asarray(c, dtype=complex)
+    r = np.asarray(r, dtype=float)
+    t2 = c.real ** 2 + c.imag ** 2
+    horiz = np.sqrt(t2)                           # |(n_x, n_y)| up to the common factor
+    nz = -0.5 * (1.0 - t2 + r * r)                # n_z up to the same factor
+    # angle between n and the south pole (0, 0, -1): atan2(|horizontal|, -n_z)
+    return 0.5 * np.arctan2(horiz, -nz)
